@@ -558,18 +558,10 @@ Proof.
   - apply Weak. apply sim_on_state; [exact HS|]. intros a b _ _ Hab. cbn. split; [now apply sim_clear | reflexivity].
 Qed.
 
-(** results of a history, position by position, except where the operation observes the cache itself *)
-Fixpoint outs_agree (ops : list (op V M IX)) (x y : list (out V)) : Prop :=
-  match ops, x, y with
-  | [], [], [] => True
-  | o :: r, a :: x', b :: y' => (cache_blind g o = true -> a = b) /\ outs_agree r x' y'
-  | _, _, _ => False
-  end.
-
 Theorem sim_run ops : F_mix g sm -> forall s1 s2 : store V, sim_store s1 s2 ->
   Disciplined g sm fx chk s1 ops -> Disciplined g sm fx chk s2 ops ->
   sim_store (fst (run g sm fx s1 ops)) (fst (run g sm fx s2 ops)) /\
-  outs_agree ops (snd (run g sm fx s1 ops)) (snd (run g sm fx s2 ops)).
+  outs_agree g ops (snd (run g sm fx s1 ops)) (snd (run g sm fx s2 ops)).
 Proof.
   intros HFm. induction ops as [|o r IH]; intros s1 s2 HS D1 D2; [cbn; now split|].
   rewrite !(run_cons V M IX). cbn [fst snd]. destruct D1 as [O1 D1], D2 as [O2 D2].
@@ -578,7 +570,7 @@ Proof.
 Qed.
 
 (** when every operation is cache blind the result lists are equal *)
-Lemma outs_agree_eq ops : forall x y, forallb (cache_blind g) ops = true -> outs_agree ops x y -> x = y.
+Lemma outs_agree_eq (ops : list (op V M IX)) : forall x y, forallb (cache_blind g) ops = true -> outs_agree g ops x y -> x = y.
 Proof.
   induction ops as [|o r IH]; intros x y Hb H; destruct x, y; cbn in H; try contradiction; [reflexivity|].
   cbn in Hb. apply andb_prop in Hb. destruct Hb as [Hb1 Hb2]. destruct H as [H1 H2].
@@ -618,6 +610,33 @@ Proof.
     apply (Good_set V g fx chk wf fx_or_chk); [exact HG | intros _ _; now apply forked_unforked_ok].
   - split; [|unfold fork_sim; now rewrite HF].
     rewrite HM. cbn. rewrite set_state_ok by assumption. reflexivity.
+Qed.
+
+(** ** the same, phrased on operation histories (a store holding one state) *)
+
+Lemma run_app (s : store V) a b : fst (run g sm fx s (a ++ b)) = fst (run g sm fx (fst (run g sm fx s a)) b).
+Proof. revert s. induction a as [|o r IH]; intros s; [reflexivity|]. cbn [app]. rewrite !(run_cons V M IX). cbn [fst]. apply IH. Qed.
+
+Lemma run_gets_single reads : forall st : state V, fst (run g sm fx [st] (map (Get 0) reads)) = [gets g st reads].
+Proof.
+  induction reads as [|r rs IH]; intros st; [reflexivity|].
+  cbn [map]. rewrite (run_cons V M IX). cbn [fst]. rewrite gets_cons.
+  replace (fst (step g sm fx [st] (Get 0 r))) with [fst (get_state g st r)]; [apply IH|].
+  cbn. now destruct (get_state g st r).
+Qed.
+
+Theorem full_revert_history (st : state V) i o reads later :
+  F_mix g sm -> Good st -> mode st <> None -> i < n -> settable g i = true ->
+  let s1 := fst (run g sm fx [st] (Set_ 0 i o :: map (Get 0) reads ++ [Revert 0])) in
+  Disciplined g sm fx chk s1 later -> Disciplined g sm fx chk [forget_fork st] later ->
+  outs_agree g later (snd (run g sm fx s1 later)) (snd (run g sm fx [forget_fork st] later)).
+Proof.
+  intros HFm HG Hm Hi Hs s1 D1 D2.
+  assert (E : s1 = [fst (revert_state (gets g (fst (set_state g fx st i o)) reads))]).
+  { unfold s1. rewrite (run_cons V M IX). cbn [fst].
+    replace (fst (step g sm fx [st] (Set_ 0 i o))) with [fst (set_state g fx st i o)] by (cbn; now destruct (set_state g fx st i o)).
+    rewrite run_app, run_gets_single. cbn. now destruct (revert_state (gets g (fst (set_state g fx st i o)) reads)). }
+  rewrite E in *. apply sim_run; auto. constructor; [|constructor]. now apply full_revert_sim.
 Qed.
 
 End Proofs.
